@@ -42,7 +42,12 @@ def check_c11(prop, tier, seed):
                       prior='affine'),
                  dict(kind='wrap', seed=83 + s, mseed=s, n_batch=4, n_live=20, periodic=[0], blob='float',
                       prior='Prior', smooth=True, runkw=dict(n_eff=50, discard_exploration=False, n_shell=8)),
-                 dict(kind='ring', seed=87 + s, mseed=s, n_batch=4, n_live=20, prior='PriorArr', smooth=True)]
+                 dict(kind='ring', seed=87 + s, mseed=s, n_batch=4, n_live=20, prior='PriorArr', smooth=True),
+                 # sampler pool and thousands of proposals per bound: the pooled refill path draws worker seeds from
+                 # the shared generator, so anything that changes WHEN a bound refills (e.g. writing a checkpoint)
+                 # changes the result
+                 dict(kind='gauss', seed=88 + s, mseed=s, n_batch=40, n_live=40, n_points_min=6, pool=[None, 2], smooth=True,
+                      runkw=dict(n_shell=1500, n_eff=100, discard_exploration=True))]
         if tier == 'thorough':
             bases += [dict(kind='plateau', seed=84 + s, mseed=s, n_batch=4, n_live=20, blob='struct', n_networks=2),
                       dict(kind='ring', seed=85 + s, mseed=s, n_batch=4, n_live=24, prior='PriorArr'),
